@@ -284,6 +284,13 @@ static int ex_search(char **pat)
 
 #define EX_NOADDR	(-(1 << 28))	/* an address that does not resolve */
 
+/* read a number; saturated, so that huge addresses stay out of range */
+static int ex_num(char *s)
+{
+	long n = strtol(s, NULL, 10);
+	return n > 100000000 ? 100000000 : (n < -100000000 ? -100000000 : n);
+}
+
 static int ex_lineno(char **num)
 {
 	int n = xrow;
@@ -307,13 +314,13 @@ static int ex_lineno(char **num)
 		break;
 	default:
 		if (isdigit((unsigned char) **num)) {
-			n = atoi(*num) - 1;
+			n = ex_num(*num) - 1;
 			while (isdigit((unsigned char) **num))
 				++*num;
 		}
 	}
 	while (**num == '-' || **num == '+') {
-		n += atoi((*num)++);
+		n += ex_num((*num)++);
 		while (isdigit((unsigned char) **num))
 			(*num)++;
 	}
